@@ -2,7 +2,7 @@
    non-trivial worlds, and what fails without them (closed terms, decided by computation). *)
 From LC Require Import Lib.Bytes Lib.Lex Lib.Fields Lib.PathM Gen.Consts
   Model.MountInfo Model.FsTree Model.Kernel Model.Layers Cases.Verdict Cases.LC Cases.C11 Cases.C09
-  Proofs.LayerFileP Proofs.C11P Proofs.C09P Proofs.C11cP.
+  Proofs.LayerFileP Proofs.C11P Proofs.C09P Proofs.C11cP Proofs.C11rP.
 Import LC LCS.
 Open Scope string_scope.
 
@@ -59,6 +59,13 @@ Proof. vm_compute. repeat split. Qed.
 (* ---- C11 (c) *)
 Example wf_rebase_sat : wf_rebase cfg0 fs0 (bs "dev1") = true.
 Proof. vm_compute. reflexivity. Qed.
+
+(* rename of a layer that has a child (so two layerconfigs are rewritten) *)
+Example wf_rename_sat : wf_rename cfg0 fs0 (bs "base1") (bs "b2") = true
+  /\ map (fun l => (l_name l, l_base l))
+         (layers_on_disk cfg0 (wo_fs (v_after (view_of_model cfg0 w0 (env0 NoFault) (CRename (bs "base1") (bs "b2")) []))))
+     = [(bs "b2", []); (bs "dev1", bs "b2")].
+Proof. vm_compute. repeat split. Qed.
 
 (* ---- C09: the derived layer holds user data (it is renamed), the hypotheses hold *)
 Example wf_remove_sat : wf_remove cfg0 fs0 (bs "dev1") = true
